@@ -879,6 +879,39 @@ class RemoteEval(_CHarness):
           self.rows.append((f'RemoteIterator(gen {n})',
                             ('ok', ([('g', i) for i in range(n)], 'R')),
                             ('ok', (got, end))))
+          # the async faces: __anext__ / async_get / async_get_batch
+          from vmc import vasyncio
+          loop = vasyncio.new_event_loop()
+
+          async def drain(nxt):
+            got = []
+            try:
+              while True:
+                got.append(await nxt())
+            except StopAsyncIteration as e:
+              return got, tuple(e.args)
+
+          gen2 = client.get_result(lf.trace(fx.gen)(n, 'AR', lazy_result_=True))
+          ait = m.courier_utils.RemoteIterator(gen2)
+          got, args = loop.run_until_complete(drain(ait.__anext__))
+          self.rows.append((f'RemoteIterator.__anext__(gen {n})',
+                            ('ok', ([('g', i) for i in range(n)], ('AR',))),
+                            ('ok', (got, args))))
+          aq = m.iter_utils.IteratorQueue(2, name='arq')
+          aq.enqueue_from_iterator(fx.gen(min(n, 2), 'AQR'))
+          arq = m.courier_utils.RemoteIteratorQueue.new(aq, server_addr=client)
+          got, args = loop.run_until_complete(drain(arq.async_get))
+          self.rows.append((f'RemoteIteratorQueue.async_get({n})',
+                            ('ok', ([('g', i) for i in range(min(n, 2))], ('AQR',))),
+                            ('ok', (got, args))))
+          bq = m.iter_utils.IteratorQueue(2, name='brq')
+          bq.enqueue_from_iterator(fx.gen(min(n, 2), 'BQR'))
+          brq = m.courier_utils.RemoteIteratorQueue.new(bq, server_addr=client)
+          got, args = loop.run_until_complete(drain(brq.async_get_batch))
+          self.rows.append((f'RemoteIteratorQueue.async_get_batch({n})',
+                            ('ok', ([('g', i) for i in range(min(n, 2))], ('BQR',))),
+                            ('ok', ([x for b in got for x in b], args))))
+          loop.close()
           # a remote queue fed on the server
           q = m.iter_utils.IteratorQueue(2, name='rq')
           q.enqueue_from_iterator(fx.gen(min(n, 2), 'QR'))
